@@ -22,7 +22,7 @@ def run(rep, tier, seed):
     for i in range(n):
         mg = mg_big if (not quick and i % 3 == 0) or (quick and i % 10 == 0) else mg_small
         m = mg.model(dynamic=True, kwnames=True, rich_edges=True)
-        xml = GM.render_xml(m, rng, gui=rng.random() < 0.7, cdata=rng.choice([False, "whole", "mixed"]), empty_elems=rng.random() < 0.4)
+        xml = GM.render_xml(m, rng, gui=rng.random() < 0.7, cdata=rng.choice([False, "whole", "mixed"]), empty_elems=rng.random() < 0.4, extras=rng.random() < 0.5)
         entry = rng.choice(["xml_buffer", "xml_buffer", "xml_file", "xml_fd"])
         c = Case("m%d" % i, [Step("parse_builder", 0, "xml_buffer", 1, "doc", 1, xml),
                              Step("parse_doc", 1, entry, 1, 1, xml)], timeout=60)
